@@ -1,34 +1,38 @@
 (* C12 — what the correspondence check evaluates on every case. *)
-From Yv Require Export Common.Base C12.Model C12.Spec C12.Script.
+From Yv Require Export Common.Base C12.Model C12.Spec C12.Script C12.Last.
 
 (* CApi: the pids and ID texts in play, and the history as (operation,
-   observation the implementation made after it).
+   observation the implementation made after it: the table through its public
+   API and what `last_async_pid()` returned).
    CScript: a script run on the simulated OS: the first snapshot (empty table),
    then (command, snapshot after it). *)
 Inductive case :=
-| CApi (pids : list Z) (ids : list str) (h : list (op * obs))
+| CApi (pids : list Z) (ids : list str) (h : list (lop * (obs * Z)))
 | CScript (pids : list Z) (ids : list str) (init : snap) (steps : list (scmd * snap)).
 
-Definition reused_pid (o : op) : option Z :=
-  match o with OInsert p _ _ => Some p | _ => None end.
+Definition reused_pid (o : lop) : option Z :=
+  match o with LOp (OInsert p _ _) => Some p | _ => None end.
 
-Fixpoint run_hist (pids : list Z) (ids : list str) (s : joblist) (last : obs)
-    (h : list (op * obs)) : verdict :=
+(* [last] / [lastz]: the implementation's previous observation *)
+Fixpoint run_hist (pids : list Z) (ids : list str) (s : jlist) (last : obs) (lastz : Z)
+    (h : list (lop * (obs * Z))) : verdict :=
   match h with
   | [] => 0%N
-  | (o, ob) :: h =>
-      (* oracle first: evaluated on the implementation's observation only *)
+  | (o, (ob, z)) :: h =>
+      (* oracle first: evaluated on the implementation's observations only *)
       match first_false 0 (inv_obs_clauses ob) with
       | Some k => (2 + k)%N
       | None =>
           if negb (stable_obs (reused_pid o) last ob) then 10%N
+          else if negb (last_ok lastz o z) then 20%N
           else
-            let s' := step s o in
-            if negb (op_ok s o) then 99%N       (* generator broke the precondition *)
-            else if obs_eqb (observe pids ids s') ob then run_hist pids ids s' ob h
+            let s' := lstep s o in
+            if negb (lop_ok s o) then 99%N      (* generator broke the precondition *)
+            else if obs_eqb (observe pids ids (tbl s')) ob && Z.eqb (last_async_pid s') z
+            then run_hist pids ids s' ob z h
             else
               (* correspondence broken; keep looking for an oracle failure *)
-              match run_hist pids ids s' ob h with
+              match run_hist pids ids s' ob z h with
               | 0%N => 1%N
               | v => v
               end
@@ -66,7 +70,7 @@ Fixpoint model_steps (pids : list Z) (ids : list str) (s : joblist) (b : snap)
 
 Definition run_case (c : case) : verdict :=
   match c with
-  | CApi pids ids h => run_hist pids ids empty (observe pids ids empty) h
+  | CApi pids ids h => run_hist pids ids lempty (observe pids ids empty) 0%Z h
   | CScript pids ids init steps =>
       match first_false 0 (inv_obs_clauses (sn_obs init)) with
       | Some k => (2 + k)%N
